@@ -97,6 +97,7 @@ package node
 // Inserting an event through the core runs the hashgraph pipeline and, for an event of this node, moves head/seq
 // to it; a refused event moves neither. The pools are not touched by either function.
 //@ func (c *core) insertEventAndRunConsensus(event *hg.Event, setWireInfo bool) error
+//@   safety on
 //@   requires c != nil && c.hg != nil && c.validator != nil && c.validator.Key != nil && event != nil && len(event.Body.Parents) == 2 && c.hg.ConsensusReady()
 //@   ensures[ready]   c.hg == old(c.hg) && c.hg.ConsensusReady()
 //@   ensures[refused] ret0 != nil ==> c.head == old(c.head) && c.seq == old(c.seq)
@@ -105,6 +106,7 @@ package node
 //@   ensures[pools]   __eq(c.transactionPool, old(c.transactionPool)) && __eq(c.internalTransactionPool, old(c.internalTransactionPool))
 
 //@ func (c *core) signAndInsertSelfEvent(event *hg.Event) error
+//@   safety on
 //@   requires c != nil && c.hg != nil && c.validator != nil && c.validator.Key != nil && event != nil && len(event.Body.Parents) == 2 && c.hg.ConsensusReady()
 //@   ensures[ready]   c.hg == old(c.hg) && c.hg.ConsensusReady()
 //@   ensures[refused] ret0 != nil ==> c.head == old(c.head) && c.seq == old(c.seq)
@@ -130,6 +132,7 @@ package node
 // recordHeads / sync (C05): the pools change only inside addSelfEvent (whose contract says when and how); a sync
 // that fails before recording heads, or that is truncated, leaves them exactly as they were.
 //@ func (c *core) recordHeads() error
+//@   safety on
 //@   requires c != nil && c.hg != nil && c.validator != nil && c.validator.Key != nil && c.selfBlockSignatures != nil && c.hg.ConsensusReady()
 //@   ensures[ready]      c.hg == old(c.hg) && c.hg.ConsensusReady()
 //@   ensures[pools-kept] !__called("addSelfEvent") ==> __eq(c.transactionPool, old(c.transactionPool)) && __eq(c.internalTransactionPool, old(c.internalTransactionPool))
@@ -137,6 +140,7 @@ package node
 //@   loop 1 invariant[pools-kept] !__called("addSelfEvent") ==> __eq(c.transactionPool, old(c.transactionPool)) && __eq(c.internalTransactionPool, old(c.internalTransactionPool))
 
 //@ func (c *core) sync(fromID uint32, unknownEvents []hg.WireEvent) error
+//@   safety on
 //@   requires c != nil && c.hg != nil && c.validator != nil && c.validator.Key != nil && c.selfBlockSignatures != nil && c.hg.ConsensusReady() && c.heads != nil
 //@   ensures[ready]      c.hg == old(c.hg) && c.hg.ConsensusReady()
 //@   ensures[pools-kept] !__called("recordHeads") ==> __eq(c.transactionPool, old(c.transactionPool)) && __eq(c.internalTransactionPool, old(c.internalTransactionPool))
@@ -162,20 +166,31 @@ package node
 //@   requires n != nil && n.core != nil && n.core.validator != nil && n.core.validator.Key != nil && n.core.hg != nil && n.conf != nil && cmd != nil
 //@   modifies hg.G_miss(n.core.hg.Store)
 
+// standing: the invariants a running node keeps between requests (established by NewNode/Init; not verified there).
+//@ ghost func (n *Node) standing() bool { return n != nil && n.core != nil && n.core.validator != nil && n.core.validator.Key != nil && n.core.hg != nil && n.conf != nil && n.core.selfBlockSignatures != nil && n.core.heads != nil && n.core.hg.ConsensusReady() && n.core.peers != nil && n.core.promises != nil && n.proxy != nil }
+
+// The handlers of the mutating requests: no panic for any request content (C08), under the node's standing
+// invariants (core, hashgraph, validator key, pools and heads exist).
+//@ func (n *Node) sync(fromID uint32, events []hg.WireEvent) error
+//@   safety on
+//@   requires n.standing()
+//@   ensures[ready] n.core == old(n.core) && n.core.hg == old(n.core.hg) && n.core.hg.ConsensusReady()
+//@   call processSigPool assume[separate-blocks] hg.StoredBlocksSeparate(n.core.hg.Store)
+
 //@ func (n *Node) processEagerSyncRequest(rpc net.RPC, cmd *net.EagerSyncRequest)
-//@   trusted handler body not verified here (it inserts events: covered by the contracts of ReadWireInfo / InsertEvent); only the gate in front of it is claimed
-//@   requires n != nil
+//@   safety on
+//@   requires n.standing() && cmd != nil
 
 //@ func (n *Node) processFastForwardRequest(rpc net.RPC, cmd *net.FastForwardRequest)
-//@   trusted handler body not verified here; only the gate in front of it is claimed
-//@   requires n != nil
+//@   safety on
+//@   requires n.standing() && cmd != nil
 
 //@ func (n *Node) processJoinRequest(rpc net.RPC, cmd *net.JoinRequest)
-//@   trusted handler body not verified here; only the gate in front of it is claimed
-//@   requires n != nil
+//@   safety on
+//@   requires n.standing() && cmd != nil
 
 //@ func (n *Node) processRPC(rpc net.RPC)
-//@   requires n != nil && n.core != nil && n.core.validator != nil && n.core.validator.Key != nil && n.core.hg != nil && n.conf != nil
+//@   requires n.standing()
 //@   call processEagerSyncRequest   assert[gate-eager] __lastret("GetState", 0) == _state.Babbling
 //@   call processFastForwardRequest assert[gate-ff]    __lastret("GetState", 0) == _state.Babbling
 //@   call processJoinRequest        assert[gate-join]  __lastret("GetState", 0) == _state.Babbling
